@@ -11,7 +11,7 @@
                                                                         C03c_precedence_parse (strings)
      the same, read off the structure instead of through Grammar.v       C03c_precedence_explicit *)
 Require Import Base Decimal Tree GenTree GenParser Lexer Print Actions LR Parser Erase Grammar.
-Require Import PrecedenceProofs.
+Require Import LayoutProofs PrecedenceProofs PrecedenceGeneral.
 
 (* ---- the statement on token lists (what `parse` runs after the lexer), any layout, any ghost prefix *)
 Definition C03c_precedence_statement : Prop :=
@@ -120,6 +120,81 @@ Example C03c_guard_excludes_f4 :
   atomic_infix (fst (lex [97;32;65;78;68;32;98;32;45;99]%N)) -> False.      (* a AND b -c *)
 Proof. vm_compute. discriminate. Qed.
 
+(* ================================================================ the general form: every syntax tree
+   of the grammar below, any depth, any length (proofs/PrecedenceGeneral.v)
+
+     query   := query orx | orx            orx := orx OR andx | andx        andx := andx AND operand | operand
+     operand := NOT operand | TERM : operand | postfix
+     postfix := postfix ^force | TERM | PHRASE | REGEX | TERM~d | PHRASE~n | ( query )
+
+   `ptree` is that grammar as a datatype, `fl` its yield, `wfb` the level discipline (and that the
+   numerals after ~ and ^ are numbers).  NOT covered: see the end of this file. *)
+Definition C03c_grammar_trees_statement : Prop :=
+  forall p toks ev0, wfb p = true -> map tok_key toks = map tok_key (fl p) ->
+    exists t evs,
+      run gen_tables None (parse_fuel toks) (init_config toks ev0) = Done (Ok t) evs /\
+      spec_parse (map tok_key toks) = Some (erase t).
+
+Theorem C03c_grammar_trees : C03c_grammar_trees_statement.
+Proof. intros p toks ev0 W Hk. exact (general_core_keys toks ev0 p W Hk). Qed.
+
+(* on strings, in the form of C03_grammar_statement *)
+Definition C03c_grammar_trees_parse_statement : Prop :=
+  forall s p, snd (lex s) = None -> wfb p = true -> map tok_key (fst (lex s)) = map tok_key (fl p) ->
+    exists t, parse s = Some (Ok t) /\ spec_parse (map tok_key (fst (lex s))) = Some (erase t).
+
+Theorem C03c_grammar_trees_parse : C03c_grammar_trees_parse_statement.
+Proof.
+  intros s p He W Hk. unfold parse, parse_full, parse_with.
+  destruct (lex s) as [toks e]. simpl in He, Hk. subst e.
+  destruct (general_core_keys toks (match toks with [] => [GDrop s] | _ => [] end) p W Hk) as [t [evs [Hr Hs]]].
+  rewrite Hr. exists t. split; [reflexivity|exact Hs].
+Qed.
+
+(* the dictated tree, explicitly *)
+Definition C03c_grammar_trees_value_statement : Prop :=
+  forall p ev0, wfb p = true ->
+    exists t evs,
+      run gen_tables None (parse_fuel (fl p)) (init_config (fl p) ev0) = Done (Ok t) evs /\ erase t = val p.
+
+Theorem C03c_grammar_trees_value : C03c_grammar_trees_value_statement.
+Proof.
+  intros p ev0 W. destruct (general_core p ev0 W) as [t [evs [Hr Hs]]]. exists t, evs. split; [exact Hr|].
+  pose proof (sp_query p W) as Hq. unfold keys_of in Hq. rewrite Hq in Hs. inversion Hs. reflexivity.
+Qed.
+
+(* ---- non-vacuity: field groups, nesting, fuzzy / proximity / boosts, NOT, regex, chained fields
+   t:(b OR "c d"~2 AND NOT e^3) f~ AND (g h)^2 OR /r/ x:y:z *)
+Definition ex_gen : str :=
+  [116;58;40;98;32;79;82;32;34;99;32;100;34;126;50;32;65;78;68;32;78;79;84;32;101;94;51;41;32;102;126;32;65;78;68;32;
+   40;103;32;104;41;94;50;32;79;82;32;47;114;47;32;120;58;121;58;122]%N.
+Definition ex_gen_tree : ptree :=
+  let k i := nth i (fst (lex ex_gen)) (mkTok T_EOF [] 0 [] []) in
+  PJuxt
+    (PJuxt
+       (PField (k 0) (k 1)
+          (PGroup (k 2)
+             (POr (PAtom (k 3)) (k 4)
+                  (PAnd (PApprox (k 5) (k 6)) (k 7) (PNot (k 8) (PBoost (PAtom (k 9)) (k 10)))))
+             (k 11)))
+       (POr (PAnd (PApprox (k 12) (k 13)) (k 14)
+                  (PBoost (PGroup (k 15) (PJuxt (PAtom (k 16)) (PAtom (k 17))) (k 18)) (k 19)))
+            (k 20) (PAtom (k 21))))
+    (PField (k 22) (k 23) (PField (k 24) (k 25) (PAtom (k 26)))).
+
+Example C03c_trees_nonvacuous :
+  snd (lex ex_gen) = None /\ wfb ex_gen_tree = true /\ fl ex_gen_tree = fst (lex ex_gen) /\
+  length (fst (lex ex_gen)) = 27.
+Proof. repeat split; vm_compute; reflexivity. Qed.
+
+Example C03c_trees_nonvacuous_result :
+  exists t, parse ex_gen = Some (Ok t) /\ erase t = val ex_gen_tree /\
+            spec_parse (map tok_key (fst (lex ex_gen))) = Some (erase t).
+Proof. eexists. repeat split; vm_compute; reflexivity. Qed.
+
 Print Assumptions C03c_precedence.
 Print Assumptions C03c_precedence_parse.
 Print Assumptions C03c_precedence_explicit.
+Print Assumptions C03c_grammar_trees.
+Print Assumptions C03c_grammar_trees_parse.
+Print Assumptions C03c_grammar_trees_value.
